@@ -62,7 +62,7 @@ def run_c03(ctx):
 
 def run_c12(ctx):
     binary = layoutmon()
-    count = 15_000 if ctx.quick else 600_000
+    count = 15_000 if ctx.quick else 250_000
     reports = ctx.run_layoutmon(binary, "builder", NS, lambda s: ["--count", count], 900 if ctx.quick else 5400)
     ctx.subruns.append({"engine": "layoutmon builder", "shards": NS, "random_histories_per_shard": count,
                         "builders": ["native x 4 strategies", "generic x append_data / append_data_reverse"]})
